@@ -478,6 +478,20 @@ def fam_restore_phase2(rng, thorough, blobs):
         S.append(Sc(["conn"] + cfg() + connect() + feed(full[:3]) + ["restore " + b, "rxclose", "run", "run", "release"], "restore:while-connected",
                     [(r"RESTORE=-\d+ ", "restore refused while not disconnected")]))
         S.append(Sc(base + connect() + feed(full) + ["rxreset", "run", "run", "getsm", "conn"] + cfg() + ["setsm"] + connect() + feed(resume_script("resumed", h=1)) + TEARDOWNS["close"], "restore:session-handover", ok))
+    # refused blobs: every block taken while loading must be given back (cuts and single-byte damage of captured blobs
+    # with non-empty queues; the connection is released, or used for a session afterwards)
+    big = sorted(blobs, key=len, reverse=True)[:3 if not thorough else 12]
+    for b in big:
+        n = len(b) // 2
+        cuts = list(range(1, n)) if (thorough or n <= 80) else sorted(set(list(range(1, 40)) + rng.sample(range(40, n), 40)))
+        for c in cuts:
+            S.append(Sc(["conn"] + cfg() + ["restore " + b[:2 * c], "release"], "restore:cut-release"))
+        for c in rng.sample(range(1, n), min(n - 1, 12 if not thorough else 60)):
+            S.append(Sc(["conn"] + cfg() + ["restore " + b[:2 * c]] + connect() + feed(full) + TEARDOWNS["close"] + ["release"], "restore:cut-session"))
+        for _ in range(20 if not thorough else 200):
+            k = rng.randrange(n)
+            d = b[:2 * k] + "%02x" % rng.randrange(256) + b[2 * k + 2:]
+            S.append(Sc(["conn"] + cfg() + ["restore " + d, "release"], "restore:damaged-release"))
     return S
 
 
